@@ -1,4 +1,90 @@
+/- Driver, registry families: `pair_key`, `read_pairs`, `assert_operations` (C16, C19, C13). -/
 import Halo.Driver.Basic
+import Halo.Driver.TextFam
+import Halo.Registry
+
 namespace Halo.Driver
-def registryLine (_family : String) (_a : List String) (_impl : String) : Verdict := { diverge := some "registry-not-yet" }
+open Halo
+
+/-- `n<hex>` / `t<hex>` → raw bytes (the kind letter is kept apart) -/
+def rawOf (s : String) : Bytes := unhex s        -- `unhex` skips the first character
+
+def bytesHex (bs : List Nat) : String := String.ofList (bs.flatMap fun b => [hexDigit (b / 16), hexDigit (b % 16)])
+
+def pairOf (s : String) : String × String :=
+  match s.splitOn "." with
+  | [a, b] => (a, b)
+  | _ => ("n", "n")
+
+def keyOfPair (s : String) : Bytes := let (a, b) := pairOf s; pairKey (rawOf a) (rawOf b)
+
+def buildReg (ids : String) : List (Bytes × String) :=
+  if ids == "-" then [] else (ids.splitOn ";").foldl (fun reg p => regInsert (keyOfPair p) p reg) []
+
+/-- decidable form of `NoLowExt` on concrete keys -/
+def noLowExtB (keys : List Bytes) : Bool :=
+  keys.all fun c => keys.all fun k =>
+    !(c.isPrefixOf k && (match k.drop c.length with | 0 :: _ => true | [1] => true | _ => false))
+
+def sameSet (p q : String) : Bool :=
+  let (a, b) := pairOf p
+  let (c, d) := pairOf q
+  -- asset identity is (kind, bytes): compare the encoded ids
+  (a == c && b == d) || (a == d && b == c)
+
+def registryLine (family : String) (a : List String) (impl : String) : Verdict :=
+  match family, a with
+  | "pair_key", ["one", p] =>
+    let (x, y) := pairOf p
+    let model := s!"ok {bytesHex (pairKey (rawOf x) (rawOf y))}"
+    let sym := pairKey (rawOf x) (rawOf y) == pairKey (rawOf y) (rawOf x)
+    mk false model impl (chk "C16" "model key not symmetric" sym)
+  | "pair_key", ["two", p, q] =>
+    let model := s!"ok {bytesHex (keyOfPair p)} {bytesHex (keyOfPair q)}"
+    let oracle := match impl.splitOn " " with
+      | ["ok", k1, k2] =>
+        -- distinct raw-id sets must not share a key (ids of different kind with equal bytes are the same raw id)
+        let (x, y) := pairOf p
+        let (c, d) := pairOf q
+        let sameRaw := (rawOf x == rawOf c && rawOf y == rawOf d) || (rawOf x == rawOf d && rawOf y == rawOf c)
+        chk "C16" "two different asset-id sets share a registry key" (k1 != k2 || sameRaw)
+      | _ => []
+    mk false model impl oracle
+  | "read_pairs", ["page", ids, start, lim] =>
+    let reg := buildReg ids
+    let cursor := if start == "-" then none else some (keyOfPair start)
+    let pg := readPairs reg cursor (optNat lim)
+    let model := s!"ok {if pg.isEmpty then "-" else ";".intercalate (pg.map (·.2))}"
+    let oracle := match impl.splitOn " " with
+      | ["ok", l] =>
+        let n := if l == "-" then 0 else (l.splitOn ";").length
+        chk "C19" "a page exceeds 30 entries or the default of 10" (decide (n ≤ 30) && (lim != "-" || decide (n ≤ 10)))
+      | _ => []
+    mk false model impl oracle [if noLowExtB (reg.map (·.1)) then "nolowext" else "lowext"]
+  | "read_pairs", ["walk", ids, lim] =>
+    let reg := buildReg ids
+    let wk := walk reg (optNat lim)
+    let model := s!"ok {if wk.isEmpty then "-" else ";".intercalate (wk.map (·.2))}"
+    let nle := noLowExtB (reg.map (·.1))
+    let oracle := match impl.splitOn " " with
+      | ["ok", l] =>
+        let got := if l == "-" then [] else l.splitOn ";"
+        let want := if ids == "-" then [] else ids.splitOn ";"
+        -- every registered pair exactly once (orientation as stored)
+        if nle then
+          chk "C19" "the walk does not visit every registered pair exactly once"
+            (got.length == want.length && want.all (fun p => got.any (sameSet p)) )
+        else []
+      | _ => []
+    mk false model impl oracle [if nle then "nolowext" else "lowext"]
+  | "assert_operations", [ops] =>
+    let parsed : List (String × String) :=
+      if ops == "-" then [] else (ops.splitOn ";").map fun h =>
+        match h.splitOn ">" with
+        | [x, y] => (String.ofList ((unhex x).map Char.ofNat), String.ofList ((unhex y).map Char.ofNat))
+        | _ => ("", "")
+    let model := resU (assertOperations parsed)
+    mk false model impl []
+  | _, _ => { diverge := some s!"unknown-registry-line {family}" }
+
 end Halo.Driver
